@@ -17,7 +17,7 @@ DELS = {
     "Dall": ("delete from t", lambda r: True),
 }
 OPS = list(B) + list(DELS) + ["C", "R"]
-CHURN = ["I1", "I2", "Dall", "C", "R"]
+CHURN = ["I1", "I2", "Dk<5", "Dall", "C", "R"]      # two delete vectors on each of two row-sets, then compacted to nothing
 
 
 def depth(tier):
